@@ -565,10 +565,8 @@ struct World : CallbackSink
 		frames.clear(); cur = 0;
 	}
 
-	void triggerAll() {
-		if(dead) return;
+	void triggerRound() {
 		for(size_t i = 0; i < nodes.size(); ++i) nodes[i].ran = false;
-		makePlan();
 		for(int t = 0; t < NT && ! dead; ++t) {
 			const int how = K::QUEUED ? (int)rng.below(3) : 0;
 			static const char * hn[] = { "", " (enqueue+process each)", " (enqueue all, process once)" };
@@ -580,8 +578,17 @@ struct World : CallbackSink
 			}
 			else for(int k = 0; k < NKEYS && ! dead; ++k) { pushFrame(t, k); runFrames(t, how); }
 		}
-		plan.active = false;
 		for(size_t i = 0; i < nodes.size(); ++i) if(nodes[i].attached && nodes[i].optOnce && nodes[i].ran) { nodes[i].optOnce = false; count("retarget.same_instance_kept_listener"); }
+	}
+
+	void triggerAll() {
+		if(dead) return;
+		makePlan();
+		const bool planned = plan.active;
+		triggerRound();
+		// an operation ran from inside a callback: the lists triggered before it have not seen its effect yet
+		if(planned && ! plan.active && ! dead) triggerRound();
+		plan.active = false;
 	}
 
 	// ---------- generator
